@@ -171,7 +171,7 @@ NAME_POOLS = {
     "affix": ["a", "xa", "ab", "b", "bc", "a", "abc", "b", "c", "xa", "ca", "bb"],
 }
 SEPS = ["/", "\\", "-", ".", "|"]
-SHAPES = ["wide", "deep", "mixed", "path", "star"]
+SHAPES = ["wide", "deep", "mixed", "path", "star", "hub"]
 NEW_NAMES = ["n", "nn", "p"]
 
 
@@ -191,6 +191,8 @@ def gen_tree(rng, pool, shape, nmax, root_name="r"):
             cand = [max(nodes, key=lambda x: x[1])]
         elif shape == "star":
             cand = [nodes[0]]
+        elif shape == "hub":               # an inner node with many children (some of them with children of their own)
+            cand = [nodes[0]] if len(nodes) < 3 else ([nodes[1]] * 6 + [x for x in nodes[2:] if x[1] <= 3])
         else:
             cand = nodes
         if not cand:
@@ -263,6 +265,9 @@ def gen_pair(rng, op, flags, sep, tsep, paths, paths2, last_to):
         pf = paths[0]
     else:
         pf = rng.choice(paths[1:]) if len(paths) > 1 else paths[0]
+        busy = [p for p in paths[1:] if sum(1 for c in paths if c[:-1] == p) >= 3]
+        if busy and rng.random() < (0.7 if (mc or dc or tt) else 0.3):
+            pf = max(busy, key=lambda p: (sum(1 for c in paths if c[:-1] == p), p)) if rng.random() < 0.6 else rng.choice(busy)
     junk = rng.random()
     if junk < 0.03 or (skip and junk < 0.15):
         pf = pf[:-1] + ("zz",)             # a node that does not exist
@@ -336,7 +341,7 @@ def gen_case(rng, flags_idx=None, op=None):
     op = op or rng.choice(["shift", "shift", "shift", "copy", "copy", "shift_replace", "tt_copy", "tt_replace"])
     stratum = rng.choice(list(NAME_POOLS))
     pool = NAME_POOLS[stratum]
-    shape = rng.choice(SHAPES)
+    shape = rng.choice(SHAPES + ["hub", "hub"])
     tree = gen_tree(rng, pool, shape, 9)
     tsep = "/" if rng.random() < 0.6 else rng.choice(SEPS)
     sep = tsep if rng.random() < 0.6 else rng.choice(SEPS)
@@ -539,7 +544,7 @@ def sample(prop, case, obs):
 
 
 def rule(prop):
-    return ("random trees (3-9 nodes; shapes wide/deep/mixed/path/star; names distinct / repeated across branches / "
+    return ("random trees (3-9 nodes; shapes wide/deep/mixed/path/star/hub; names distinct / repeated across branches / "
             "suffix-related a,xa,ab,b,bc) x the five public functions x 1-3 (from,to) pairs (full and partial from-paths, "
             "new / existing / same / nested / deleted destinations, a few malformed ones) x all 64 flag combinations "
             "(round-robin in quick, full product per scenario in thorough) x separators / \\ - . | for `sep` and the tree; "
